@@ -187,18 +187,24 @@ def items(tier):
                 out.append((lab, "order2-only", ("rev",), 2))
                 out.append((lab, "order2-only", ("fwd",), 2))
                 out.append((lab, "none", ("fwd",), 2))
+    # the checked argument selected through check_grads' argnum (it is a unary_to_nary operator): positive, negative, tuples
+    for form in (1, -1, (1,), (-1,)):
+        for modes in (("rev",), ("fwd",)):
+            out.append(("array quadratic (2,)", "none", modes, 1, form))
+            out.append(("array quadratic (2,)", "sign", modes, 1, form))
     return out
 
 
 def item_key(it):
-    return "CHK %s | defect=%s | modes=%s | order=%d" % (it[0], it[1], "+".join(it[2]), it[3])
+    return "CHK %s | defect=%s | modes=%s | order=%d%s" % (it[0], it[1], "+".join(it[2]), it[3], (" | argnum=%r" % (it[4],)) if len(it) > 4 else "")
 
 
 def check(it, tier):
     from autograd.test_util import check_grads
     from ..enga import _build_sym
 
-    lab, defect, modes, order = it
+    lab, defect, modes, order = it[:4]
+    argform = it[4] if len(it) > 4 else None  # how the checked argument is selected: None (default), 1, -1, (1,), (0, -1)
     entry = [p for p in prims() if p[0] == lab][0]
     _, mk, spec, _, scalar = entry
     cfg = Config("check_grads", item_key(it), None, [], 0)
@@ -252,7 +258,11 @@ def check(it, tier):
         try:
             with warnings.catch_warnings():
                 warnings.simplefilter("ignore")
-                check_grads(fun, modes=list(modes), order=order)(x)
+                if argform is None:
+                    check_grads(fun, modes=list(modes), order=order)(x)
+                else:
+                    # the function under test sits behind a second positional argument; the checked one is selected by argnum
+                    check_grads(lambda c_, xx: fun(xx) * 1.0 + 0.0 * c_, argform, modes=list(modes), order=order)(2.5, x)
             return {"tag": "accept", "args": [x], "rec": list(REC)}
         except AssertionError as e:
             return {"tag": "reject", "args": [x], "msg": str(e)[:80], "rec": list(REC)}
